@@ -787,4 +787,29 @@ theorem cuboidTriangleFresh2_spec (hs : LawfulSqrt sq) (pos12 : Iso2 K) (hq : Un
     · rw [if_neg (fun h => hb h.1), if_neg (not_lt.mpr (le_of_lt hs1)), max_eq_left (not_lt.mp hb)]
       exact fin s1 _ E1
 
+/-! ### non-vacuity of the cuboid/triangle theorems, evaluated over `ℚ`
+
+Cuboid `[-1,1]²`, the 3-4-5 triangle `(0,0) (3,0) (0,4)` (all edge normals rational), identity rotation.
+Triangle at `(5/4, −1/2)`: its edge `CA` faces the cuboid's face `x = 1` at gap `1/4` (both SAT passes give `1/4`; the cuboid's axis
+wins the tie): prediction `1/8` clears, prediction `1/2` gives two contacts of gap `1/4`.
+Triangle at `(−7/2, −3)`: the hypotenuse faces the cuboid's corner `(−1,−1)`; the reference normal `(−4/5, −3/5)` comes from the
+TRIANGLE pass (`4/5` against `−1/2`), the contacts have gaps `2` and `4/5` (the corner). -/
+private def exTriA (pred : ℚ) : Manifold2 ℚ :=
+  cuboidTriangleFresh2 ⟨1, 0, ⟨5/4, -1/2⟩⟩ (Iso2.inverse ⟨1, 0, ⟨5/4, -1/2⟩⟩) ⟨1, 1⟩ ⟨0, 0⟩ ⟨3, 0⟩ ⟨0, 4⟩ pred false Manifold2.new
+private def exTriB : Manifold2 ℚ :=
+  cuboidTriangleFresh2 ⟨1, 0, ⟨-7/2, -3⟩⟩ (Iso2.inverse ⟨1, 0, ⟨-7/2, -3⟩⟩) ⟨1, 1⟩ ⟨0, 0⟩ ⟨3, 0⟩ ⟨0, 4⟩ 1 false Manifold2.new
+
+/-- the hypotheses of `cuboidTriangleFresh2_spec` / `cuboidSupportMapOneway2_spec` / `triangleSupportMapOneway2_spec` are
+satisfiable (finite SAT values), and the cleared branch and both reference-axis arms of the contact branch are reached -/
+example : UnitC (⟨1, 0, ⟨5/4, -1/2⟩⟩ : Iso2 ℚ) ∧
+    (cuboidSupportMapOneway2 (⟨1, 1⟩ : V2 ℚ) (triSupportPoint2 ⟨0, 0⟩ ⟨3, 0⟩ ⟨0, 4⟩) ⟨1, 0, ⟨5/4, -1/2⟩⟩).1 = 1/4 ∧
+    (triangleSupportMapOneway2 (⟨0, 0⟩ : V2 ℚ) ⟨3, 0⟩ ⟨0, 4⟩ (cuboidSupportPoint2 ⟨1, 1⟩) (Iso2.inverse ⟨1, 0, ⟨5/4, -1/2⟩⟩)).1 = 1/4 ∧
+    (exTriA (1/8)).points.length = 0 ∧
+    (exTriA (1/2)).points.map (fun c => (c.p1.x, c.p1.y, c.p2.x, c.p2.y, c.dist)) = [(1, -1/2, 0, 0, 1/4), (1, 1, 0, 3/2, 1/4)] ∧
+    (fun m : Manifold2 ℚ => (m.n1.x, m.n1.y, m.n2.x, m.n2.y)) (exTriA (1/2)) = (1, 0, -1, 0) ∧
+    (triangleSupportMapOneway2 (⟨0, 0⟩ : V2 ℚ) ⟨3, 0⟩ ⟨0, 4⟩ (cuboidSupportPoint2 ⟨1, 1⟩) (Iso2.inverse ⟨1, 0, ⟨-7/2, -3⟩⟩)).1 = 4/5 ∧
+    exTriB.points.map (fun c => (c.p1.x, c.p1.y, c.p2.x, c.p2.y, c.dist)) = [(-1, 1, 9/10, 14/5, 2), (-1, -1, 93/50, 38/25, 4/5)] ∧
+    (fun m : Manifold2 ℚ => (m.n1.x, m.n1.y, m.n2.x, m.n2.y)) exTriB = (-4/5, -3/5, 4/5, 3/5) := by
+  refine ⟨by norm_num [UnitC], ?_, ?_, ?_, ?_, ?_, ?_, ?_, ?_⟩ <;> decide +kernel
+
 end C14
